@@ -129,6 +129,10 @@ fn parse_duration(s: &str) -> Result<Duration, HifitimeError> {
     let mut prev_idx = 0;
     let mut seeking_number = true;
     let mut latest_value = 0.0;
+    // A whole number is kept as an integer: its product with the unit is exact, whereas a float only
+    // carries 53 bits (e.g. 7706775 days, as nanoseconds, is not a double).
+    let mut latest_integer: Option<i64> = None;
+    let mut integers: [Option<i64>; 7] = [None; 7];
     let mut prev_char_was_space = false;
 
     for (idx, char) in s.char_indices() {
@@ -143,7 +147,10 @@ fn parse_duration(s: &str) -> Result<Duration, HifitimeError> {
                     }
 
                     match lexical_core::parse(s[prev_idx..idx].as_bytes()) {
-                        Ok(val) => latest_value = val,
+                        Ok(val) => {
+                            latest_value = val;
+                            latest_integer = s[prev_idx..idx].parse::<i64>().ok();
+                        }
                         Err(_) => {
                             return Err(HifitimeError::Parse {
                                 source: ParsingError::ValueError,
@@ -165,6 +172,7 @@ fn parse_duration(s: &str) -> Result<Duration, HifitimeError> {
                 for &(unit_str, pos) in UNITS {
                     if cmp_chars_to_str(s, start_idx, unit_str) {
                         decomposed[pos] = latest_value;
+                        integers[pos] = latest_integer;
                         seeking_number = true;
                         prev_idx = end_idx;
                         found_unit = true;
@@ -195,6 +203,7 @@ fn parse_duration(s: &str) -> Result<Duration, HifitimeError> {
         for &(unit_str, pos) in UNITS {
             if cmp_chars_to_str(s, start_idx, unit_str) {
                 decomposed[pos] = latest_value;
+                integers[pos] = latest_integer;
                 found_unit = true;
                 break;
             }
@@ -213,16 +222,23 @@ fn parse_duration(s: &str) -> Result<Duration, HifitimeError> {
         });
     }
 
-    Ok(Duration::compose_f64(
-        1,
-        decomposed[0],
-        decomposed[1],
-        decomposed[2],
-        decomposed[3],
-        decomposed[4],
-        decomposed[5],
-        decomposed[6],
-    ))
+    const UNIT_OF_POS: [Unit; 7] = [
+        Unit::Day,
+        Unit::Hour,
+        Unit::Minute,
+        Unit::Second,
+        Unit::Millisecond,
+        Unit::Microsecond,
+        Unit::Nanosecond,
+    ];
+    let mut duration = Duration::ZERO;
+    for (pos, unit) in UNIT_OF_POS.iter().enumerate() {
+        duration += match integers[pos] {
+            Some(count) => count * *unit,
+            None => decomposed[pos] * *unit,
+        };
+    }
+    Ok(duration)
 }
 
 fn parse_offset(s: &str) -> Result<Duration, HifitimeError> {
